@@ -23,6 +23,9 @@ type Spec struct {
 	// FirstPass: before the full application, the same patch is applied with a whitelist (the new files whose
 	// index has the bit set, cyclic) onto the same bowl object; the commit must still give exactly the new build
 	FirstPass []bool `json:"first_pass,omitempty"`
+	// ReverseDirs: both containers list their directories children first (zip-walked and hand-built containers
+	// have no parents-first order)
+	ReverseDirs bool `json:"reverse_dirs,omitempty"`
 }
 
 func check(s Spec) h.Result {
@@ -36,7 +39,14 @@ func check(s Spec) h.Result {
 		return h.Result{Skip: "cannot write new tree: " + err.Error()}
 	}
 	cl := s.Pair.Classes()
-	df, err := h.Diff(od, nd, s.Comp, nil)
+	if s.ReverseDirs {
+		cl = append(cl, "containers:directories-listed-children-first")
+	}
+	var dopts *h.DiffOpts
+	if s.ReverseDirs {
+		dopts = &h.DiffOpts{ReverseDirs: true}
+	}
+	df, err := h.Diff(od, nd, s.Comp, dopts)
 	if err != nil {
 		return h.Failf("diff failed: %v", err)
 	}
@@ -208,6 +218,7 @@ var prop = h.Prop[Spec]{
 			s.Optimize = true
 			s.Opt = &h.OptParams{Partitions: rapid.IntRange(0, 2).Draw(t, "parts"), Comp: s.Comp}
 		}
+		s.ReverseDirs = rapid.IntRange(0, 3).Draw(t, "reverse-dirs") == 0
 		if rapid.IntRange(0, 4).Draw(t, "two-passes") == 0 {
 			s.FirstPass = rapid.SliceOfN(rapid.Bool(), 1, 4).Draw(t, "first-pass")
 		}
